@@ -91,13 +91,13 @@ func leakSig(stack string) string {
 }
 
 func checkC19(rep *vk.Report) {
-	rep.Rule = "batches of 40 executions per family, run to completion, then (after every user function, listener and fallback has returned) the process is polled for up to 5s for goroutines that still have a frame of the library; families: Timeout scenarios of C07 (timeouts firing, not firing, racing), cancellation scenarios of C08 (context, deadline, Timeout, async Cancel in functions, delays, waits), hedge scenarios of C09 (winners, losers, blocked attempts), async protocol scenarios of C15, hedges whose parent is cancelled during the hedge delay while a slow function ignores cancellation; HTTP calls of C18 (every context kind, retried 5xx/429, hijacked connections, exhausted retries, firing hedges whose attempts all get 5xx so that the policy drops all but the last, retried answers whose body stalls after the first bytes) through a Transport owned by the batch: after all returned bodies are closed and CloseIdleConnections was called no client connection goroutine may remain, and no context-merger goroutine while the callers' contexts are still alive; gRPC interceptor calls with long-lived metadata contexts. Non-trivial: a batch in which a library goroutine was started (async runner, hedge attempt, timer callback) or a connection was opened; distinct by (family, batch outcome classes)."
+	rep.Rule = "batches of 40 executions per family, run to completion, then (after every user function, listener and fallback has returned) the process is polled for up to 5s for goroutines that still have a frame of the library; families: Timeout scenarios of C07 (timeouts firing, not firing, racing), cancellation scenarios of C08 (context, deadline, Timeout, async Cancel in functions, delays, waits), hedge scenarios of C09 (winners, losers, blocked attempts), async protocol scenarios of C15, hedges whose parent is cancelled during the hedge delay while a slow function ignores cancellation; HTTP calls of C18 (every context kind, retried 5xx/429, hijacked connections, exhausted retries, firing hedges whose attempts all get 5xx so that the policy drops all but the last, retried answers whose body stalls after the first bytes) through a Transport owned by the batch: after all returned bodies are closed and CloseIdleConnections was called no client connection goroutine may remain, and no context-merger goroutine while the callers' contexts are still alive; round trippers created per call with a nil inner transport (the default transport's idle connections are closed afterwards); gRPC interceptor calls with long-lived metadata contexts. Non-trivial: a batch in which a library goroutine was started (async runner, hedge attempt, timer callback) or a connection was opened; distinct by (family, batch outcome classes)."
 	rep.Assumptions = []string{
 		"quiescence is established by the calls having returned plus bracket counters around user code, never by sleeping; the 5s grace only bounds how long a finishing goroutine may take",
 		"timers are only visible through their effects: an un-stopped timer that expires unobserved later cannot be seen by this family of technique",
 		"server-side connection goroutines of the loopback server are not counted, only net/http client persistConn loops of the batch's own Transport",
 	}
-	families := []string{"timeout", "cancel", "hedge", "async", "hedge-parent-cancelled", "http", "grpc", "timer-after-outside-cancel"}
+	families := []string{"timeout", "cancel", "hedge", "async", "hedge-parent-cancelled", "http", "grpc", "timer-after-outside-cancel", "http-default-transport"}
 	batches := scale(rep, 42, 2800)
 	srv := newC18Server()
 	defer srv.srv.Close()
@@ -257,7 +257,16 @@ func c19Batch(rep *vk.Report, b int, fam string, srv *c18Server) {
 			req.Header.Set("X-Call", id)
 			ex := failsafe.NewExecutor[*http.Response](c18Stack(cs.Stack)...)
 			if cs.ExecCtx != "none" {
-				c, cancel := context.WithCancel(context.Background())
+				var c context.Context
+				var cancel context.CancelFunc
+				c, cancel = context.WithCancel(context.Background())
+				if i%3 == 0 && !strings.Contains(cs.Stack, "timeout") && !strings.Contains(cs.Stack, "hedge") {
+					// the executor's context, too, may be of an application-defined type: whatever the ADAPTER makes watch it on
+					// behalf of an attempt must be released with the attempt. (Not with a Timeout or hedge policy in the stack:
+					// those derive a child context per attempt which, by C07/C09, stays uncancelled after a normal return and is
+					// therefore watched for as long as the caller's context lives.)
+					c, cancel = newCustomCtx(context.Background())
+				}
 				mu.Lock()
 				keep = append(keep, cancel)
 				mu.Unlock()
@@ -344,6 +353,47 @@ func c19Batch(rep *vk.Report, b int, fam string, srv *c18Server) {
 			return
 		}
 		detail = fmt.Sprintf("retried=%v", retried > 0)
+		started = n
+	case "http-default-transport":
+		// round trippers created again and again with a nil inner transport (per request, per job) all use the process-wide
+		// default transport: after every body was closed, closing ITS idle connections leaves no client connection behind
+		dt, _ := http.DefaultTransport.(*http.Transport)
+		if dt == nil {
+			return
+		}
+		dt.CloseIdleConnections()
+		vk.Parallel(n, 4, func(i int) {
+			id := fmt.Sprintf("d%d-%d-%d", b, i, c18Ids.Add(1))
+			call := &srvCall{steps: []srvStep{{Status: 503, Size: 10}, {Status: 200, Size: 10}}}
+			srv.calls.Store(id, call)
+			defer srv.calls.Delete(id)
+			req, _ := http.NewRequest("GET", srv.srv.URL+"/default", nil)
+			req.Header.Set("X-Call", id)
+			rt := failsafehttp.NewRoundTripper(nil, failsafehttp.RetryPolicyBuilder().WithMaxRetries(2).Build())
+			resp, err := (&http.Client{Transport: rt}).Do(req)
+			if err == nil && resp != nil {
+				io.Copy(io.Discard, resp.Body)
+				resp.Body.Close()
+			}
+			rep.Count("http_connections_opened", 2)
+		})
+		dt.CloseIdleConnections()
+		dl := time.Now().Add(5 * time.Second)
+		left := 0
+		for {
+			left = countGoroutinesWith("net/http.(*persistConn).readLoop")
+			if left == 0 || time.Now().After(dl) {
+				break
+			}
+			time.Sleep(5 * time.Millisecond)
+		}
+		if left > 0 {
+			rep.Violate(b, "C19/http-connection-left-open", fmt.Sprintf("%d calls, each through a fresh NewRoundTripper(nil, retry policy): after every body was closed and the default transport's idle connections were closed, %d client connections are still open", n, left), map[string]any{"family": fam, "batch": b})
+			srv.srv.CloseClientConnections()
+			time.Sleep(50 * time.Millisecond)
+			return
+		}
+		detail = "default-transport"
 		started = n
 	case "grpc":
 		var keep []context.CancelFunc
